@@ -8,9 +8,11 @@ import StorageModel.C06.Recreate
   be created again and behaves as if it had never existed."
 
   Model: StorageModel/C06/Model.lean — store A (unique, nullable unique, set index, nullable fk
-  index, link collection), its plain child store A1 (own unique index) and store B (nullable
-  unique index, back-references, link collection); `Render` is the bucket dump that is diffed
-  against `boltz.Traverse` after every transaction.
+  index with back-references, nullable fk constraint with cascade delete, link collection,
+  ref-counted link collection), its plain child store A1 (own unique index, a link collection
+  declared on the child store) and store B (nullable unique index, fk delete restriction, the
+  other sides of all links); `Render` is the bucket dump that is diffed against
+  `boltz.Traverse` after every transaction.
 -/
 namespace StorageModel.Properties.C06
 open StorageModel StorageModel.C06
@@ -18,8 +20,9 @@ open StorageModel.C03 (Map Id Err setOf Line)
 
 theorem inv_init : C06.Inv State.empty := inv_empty
 
-/-- every operation kind (accepted or rejected, in its own transaction) preserves the invariant —
-    including `A1.Create` over an existing plain parent (re-indexed since fix 8269ce9) -/
+/-- every operation kind (accepted or rejected, in its own transaction) preserves the invariant:
+    creates through either store (also over an existing plain parent), updates, patches, deletes
+    through either store, cascading deletes of owners, ref-count increments / decrements / sets -/
 theorem inv_step {s : State} (op : Op) (h : C06.Inv s) : C06.Inv (step s op).1 := inv_txStep [op] h
 
 theorem inv_tx {s : State} (ops : List Op) (h : C06.Inv s) : C06.Inv (txStep s ops).1 := inv_txStep ops h
@@ -27,68 +30,82 @@ theorem inv_tx {s : State} (ops : List Op) (h : C06.Inv s) : C06.Inv (txStep s o
 /-- all finite histories of transactions -/
 theorem inv_reachable (txs : List (List Op)) : C06.Inv (run txs) := inv_foldTxs txs inv_init
 
-/-- **No trace, store A** (also when the delete goes through the child store): after a committed
-    delete no line of the bucket dump mentions the id — as path element, key or value, plain or
-    typed. -/
-theorem delete_no_trace {s s' : State} {id : Id} (hi : C06.Inv s) (h : step s (.deleteA id) = (s', .ok))
-    (hc : NoClash id s') (hb : s'.b.lookup id = none) :
-    ∀ line, line ∈ Render s' → ¬ Mentions id line := by
-  have hraw : deleteA s id = .ok s' := by
-    simp only [step, txStep, applyOps, stepRaw] at h
-    cases hd : deleteA s id with
-    | error e => simp [hd] at h
-    | ok t => simp only [hd] at h; cases h; rfl
-  exact no_trace_of_absent (inv_deleteA hi hraw) hc (deleteA_absent hi hraw).1 hb
-
-/-- **No trace, store B.** -/
-theorem delete_no_trace_owner {s s' : State} {id : Id} (hi : C06.Inv s) (h : step s (.deleteB id) = (s', .ok))
-    (hc : NoClash id s') (ha : s'.a.lookup id = none) :
-    ∀ line, line ∈ Render s' → ¬ Mentions id line := by
-  have hraw : deleteB s id = .ok s' := by
-    simp only [step, txStep, applyOps, stepRaw] at h
-    cases hd : deleteB s id with
-    | error e => simp [hd] at h
-    | ok t => simp only [hd] at h; cases h; rfl
-  exact no_trace_of_absent (inv_deleteB hi hraw) hc ha (deleteB_absent hi hraw).1
-
-/-- the same for a delete anywhere inside a committed transaction, provided the id is not
-    re-created later in it: in *every* consistent state an id that is no entity occurs nowhere -/
+/-- **No trace.**  In every consistent state — in particular after any committed transaction — an
+    id that is an entity of neither store is mentioned by no line of the bucket dump: not as a path
+    element, key or value, plain or typed.  This covers ids deleted directly, through the child
+    store, and by a cascade. -/
 theorem absent_no_trace {s : State} {id : Id} (hi : C06.Inv s) (hc : NoClash id s)
     (ha : s.a.lookup id = none) (hb : s.b.lookup id = none) :
     ∀ line, line ∈ Render s → ¬ Mentions id line :=
   no_trace_of_absent hi hc ha hb
 
-/-- after the delete the id is gone from every index, back-reference and link map of the model -/
+theorem stepRaw_of_step_ok {s s' : State} {op : Op} (h : step s op = (s', .ok)) : stepRaw s op = .ok s' := by
+  simp only [step, txStep, applyOps] at h
+  cases hd : stepRaw s op with
+  | error e => simp [hd] at h
+  | ok t => simp only [hd] at h; cases h; rfl
+
+/-- **No trace, store A** (also when the delete goes through the child store) -/
+theorem delete_no_trace {s s' : State} {id : Id} (hi : C06.Inv s) (h : step s (.deleteA id) = (s', .ok))
+    (hc : NoClash id s') (hb : s'.b.lookup id = none) :
+    ∀ line, line ∈ Render s' → ¬ Mentions id line := by
+  have hraw : deleteA s id = .ok s' := stepRaw_of_step_ok h
+  exact no_trace_of_absent (inv_deleteA hi hraw) hc (deleteA_absent hi hraw).1 hb
+
+/-- **No trace, store B** -/
+theorem delete_no_trace_owner {s s' : State} {id : Id} (hi : C06.Inv s) (h : step s (.deleteB id) = (s', .ok))
+    (hc : NoClash id s') (ha : s'.a.lookup id = none) :
+    ∀ line, line ∈ Render s' → ¬ Mentions id line := by
+  have hraw : deleteB s id = .ok s' := stepRaw_of_step_ok h
+  exact no_trace_of_absent (inv_deleteB hi hraw) hc ha (deleteB_absent hraw)
+
+/-- **No trace, cascade.**  The dependants of a deleted owner (entities whose `dep` names it) are
+    gone after the delete, and nothing mentions them either. -/
+theorem cascade_no_trace {s s' : State} {id j : Id} {e : EntA} (hi : C06.Inv s)
+    (h : step s (.deleteB id) = (s', .ok)) (hj : s.a.lookup j = some e) (hd : e.dep.getD [] = id)
+    (hc : NoClash j s') (hb : s'.b.lookup j = none) :
+    s'.a.lookup j = none ∧ ∀ line, line ∈ Render s' → ¬ Mentions j line := by
+  have hraw : deleteB s id = .ok s' := stepRaw_of_step_ok h
+  obtain ⟨_, eb, s1, _, _, hcas, rfl⟩ := deleteB_ok hraw
+  obtain ⟨_, _, _, _, _, cgone⟩ := deleteAll_spec (core_congr_uLabel hi.toInvCore _) hcas
+  have hgone : s1.a.lookup j = none := cgone j ((mem_dependants s id j).2 ⟨e, hj, hd⟩)
+  exact ⟨hgone, no_trace_of_absent (inv_deleteB hi hraw) hc hgone hb⟩
+
+/-- after the delete the id is gone from every index, back-reference, link and ref-count map -/
 theorem delete_forgets {s s' : State} {id : Id} (hi : C06.Inv s) (h : stepRaw s (.deleteA id) = .ok s')
     (hb : s.b.lookup id = none) :
     (∀ v, s'.uName.lookup v ≠ some id) ∧ (∀ v, s'.uAlias.lookup v ≠ some id) ∧ (∀ v, s'.uCode.lookup v ≠ some id) ∧
     (∀ v, s'.uLabel.lookup v ≠ some id) ∧ (∀ v, id ∉ (s'.sRoles.lookup v).getD []) ∧
-    (∀ b, id ∉ (s'.thg.lookup b).getD []) ∧ (∀ b, id ∉ (s'.mem.lookup b).getD []) ∧
-    (∀ j, id ∉ (s'.grp.lookup j).getD []) ∧
-    s'.grp.lookup id = none ∧ s'.mem.lookup id = none ∧ s'.thg.lookup id = none := by
+    (∀ b, id ∉ (s'.thg.lookup b).getD []) ∧
+    (∀ b, id ∉ (s'.g.bwd.lookup b).getD []) ∧ (∀ j, id ∉ (s'.g.fwd.lookup j).getD []) ∧
+    (∀ b, id ∉ (s'.p.bwd.lookup b).getD []) ∧ (∀ j, id ∉ (s'.p.fwd.lookup j).getD []) ∧
+    (∀ b, cnt s'.rc.bwd b id = none) ∧ (∀ j, cnt s'.rc.fwd j id = none) ∧
+    s'.g.fwd.lookup id = none ∧ s'.g.bwd.lookup id = none ∧ s'.p.fwd.lookup id = none ∧ s'.p.bwd.lookup id = none ∧
+    s'.rc.fwd.lookup id = none ∧ s'.rc.bwd.lookup id = none ∧ s'.thg.lookup id = none := by
   have h' : deleteA s id = .ok s' := h
   obtain ⟨h1, h2⟩ := deleteA_absent hi h'
   exact absent_everywhere (inv_deleteA hi h') h1 (by rw [h2]; exact hb)
 
-/-- **Re-creation.**  Creating the id again after the delete yields a consistent state in which
-    the entity is exactly what was written and every index / back-reference entry for the id is
-    determined by the *new* values alone. -/
-theorem recreate_fresh {s s' s'' : State} {id : Id} {v : ValsA} (hi : C06.Inv s)
+/-- **Re-creation, resulting state.**  Creating the id again after the delete yields a consistent
+    state in which the entity is exactly what was written and every index / back-reference entry
+    for the id is determined by the *new* values alone; no ref-count or child-store data survives. -/
+theorem recreate_fresh {s s' s'' : State} {id : Id} {v : ValsA} (hi : C06.Inv s) (hb : s.b.lookup id = none)
     (hd : stepRaw s (.deleteA id) = .ok s') (hc : stepRaw s' (.createA id v) = .ok s'') :
     C06.Inv s'' ∧
-    s''.a.lookup id = some ⟨v.name, v.alias, setOf v.roles, v.owner, none⟩ ∧
+    s''.a.lookup id = some ⟨v.name, v.alias, setOf v.roles, v.owner, v.dep, none⟩ ∧
     (∀ w, s''.uName.lookup w = some id ↔ w = v.name) ∧
     (∀ w, s''.uAlias.lookup w = some id ↔ (w ≠ [] ∧ w = v.alias.getD [])) ∧
     (∀ w, s''.uCode.lookup w ≠ some id) ∧
     (∀ w, id ∈ (s''.sRoles.lookup w).getD [] ↔ w ∈ setOf v.roles) ∧
-    (∀ b, id ∈ (s''.thg.lookup b).getD [] ↔ (b ≠ [] ∧ v.owner.getD [] = b)) := by
+    (∀ b, id ∈ (s''.thg.lookup b).getD [] ↔ (b ≠ [] ∧ v.owner.getD [] = b)) ∧
+    (∀ b, cnt s''.rc.bwd b id = none) ∧ s''.p.fwd.lookup id = none := by
   have hd' : deleteA s id = .ok s' := hd
   have hc' : createA s' id v = .ok s'' := hc
   have hi' := inv_deleteA hi hd'
   have hi'' := inv_createA hi' hc'
-  have hent : s''.a.lookup id = some ⟨v.name, v.alias, setOf v.roles, v.owner, none⟩ := by
-    rw [(createA_entity hi' hc').1]; simp
-  refine ⟨hi'', hent, ?_, ?_, ?_, ?_, ?_⟩
+  have hent : s''.a.lookup id = some ⟨v.name, v.alias, setOf v.roles, v.owner, v.dep, none⟩ := by
+    rw [(createA_entity hc').1]; simp
+  refine ⟨hi'', hent, ?_, ?_, ?_, ?_, ?_, ?_, ?_⟩
   · intro w
     constructor
     · intro h; obtain ⟨_, e, he, rfl⟩ := (hi''.uName w id).1 h; rw [hent] at he; cases he; rfl
@@ -106,16 +123,28 @@ theorem recreate_fresh {s s' s'' : State} {id : Id} {v : ValsA} (hi : C06.Inv s)
     constructor
     · intro h; obtain ⟨hne, e, he, hw⟩ := (hi''.br b id).1 h; rw [hent] at he; cases he; exact ⟨hne, hw⟩
     · rintro ⟨hne, hw⟩; exact (hi''.br b id).2 ⟨hne, _, hent, hw⟩
+  · -- the create touches no ref-count bucket; after the delete there was none for the id
+    intro b
+    rw [(createA_rc hc').1]
+    exact (absent_everywhere hi' (deleteA_absent hi hd').1 (by rw [(deleteA_absent hi hd').2]; exact hb)).2.2.2.2.2.2.2.2.2.2.1 b
+  · cases hl : s''.p.fwd.lookup id with
+    | none => rfl
+    | some l => have := hi''.p.fwdDom id l hl; simp [State.cEx, hent] at this
 
+end StorageModel.Properties.C06
+
+namespace StorageModel.Properties.C06
+open StorageModel StorageModel.C06
+open StorageModel.C03 (Map Id Err setOf Line)
 
 /-- **Re-creation, acceptance.**  Whether the re-creation is accepted is decided by the other
     entities alone (`AcceptableA`: name non-empty and not held by another entity, alias likewise,
-    no empty role, groups and owner exist) … -/
+    no empty role, groups / owner / dep exist) … -/
 theorem recreate_accepted_iff {s s' : State} {id : Id} (v : ValsA) (hi : C06.Inv s)
     (hd : stepRaw s (.deleteA id) = .ok s') :
     (∃ s'', stepRaw s' (.createA id v) = .ok s'') ↔ AcceptableA s' id v := by
   have hd' : deleteA s id = .ok s' := hd
-  exact createA_accepts_iff (inv_deleteA hi hd') (deleteA_stages hi hd').1 (deleteA_absent hi hd').1
+  exact createA_accepts_iff (inv_deleteA hi hd') (deleteA_stages hi.toInvCore hd').1 (deleteA_absent hi hd').1
 
 /-- … hence exactly as in *any* consistent state with the same entity tables in which the id is
     absent — for instance one reached by a history that never used the id: "as if it had never
@@ -125,53 +154,62 @@ theorem recreate_as_if_never_existed {s s' t : State} {id : Id} (v : ValsA) (hi 
     (ha : ∀ j, t.a.lookup j = s'.a.lookup j) (hb : ∀ j, t.b.lookup j = s'.b.lookup j) :
     (∃ s'', stepRaw s' (.createA id v) = .ok s'') ↔ (∃ t'', stepRaw t (.createA id v) = .ok t'') := by
   have hd' : deleteA s id = .ok s' := hd
-  have hid := (deleteA_stages hi hd').1
+  have hid := (deleteA_stages hi.toInvCore hd').1
   have hna := (deleteA_absent hi hd').1
   rw [recreate_accepted_iff v hi hd]
   have : (∃ t'', createA t id v = .ok t'') ↔ AcceptableA t id v :=
     createA_accepts_iff ht hid (by rw [ha]; exact hna)
   exact ((acceptableA_congr ha hb).symm.trans this.symm)
 
-/-! ### `A1.Create` over an existing plain parent (DESIGN §7 #17, repaired in /repo by 8269ce9)
+/-! ### witnesses (all by evaluation of the model)
 
-  Before the repair the parent's old unique / set / fk entries stayed behind and survived the
-  delete of the id.  The model follows the repaired code: the old entries are replaced, and the
-  scenario that used to leave three traces leaves none. -/
+  ids: a = [97], b = [98]; owners p = [112], q = [113]; values x y z m n. -/
 
-def exOwner : Op := .createB [112] none
-def exPlain : Op := .createA [97] ⟨[120], none, [[109]], some [112], [[112]]⟩
-def exChildOver : Op := .createA1 [97] ⟨[121], none, [[110]], none, []⟩ [122]
-def exDelete : Op := .deleteA [97]
+def vA : ValsA := ⟨[120], none, [[109]], some [112], none, [[112]]⟩
 
-def exTrace : State := run [[exOwner], [exPlain], [exChildOver], [exDelete]]
+/-- former open item #17 (repaired by 8269ce9): child-store create over an existing plain parent
+    re-indexes the parent; after the delete nothing mentions the id -/
+def exOver : State := run [[.createB [112] none], [.createA [97] vA],
+  [.createA1 [97] ⟨[121], none, [[110]], none, none, []⟩ [122] [[112]]]]
 
-/-- after the child-store create the parent's indexes hold the new values only … -/
 theorem child_create_over_parent_reindexes :
-    let s := run [[exOwner], [exPlain], [exChildOver]]
-    s.uName.lookup [120] = none ∧ s.uName.lookup [121] = some [97] ∧ s.sRoles.lookup [109] = none ∧
-    s.sRoles.lookup [110] = some [[97]] ∧ s.thg.lookup [112] = some [] ∧ s.uCode.lookup [122] = some [97] := by
+    exOver.uName.lookup [120] = none ∧ exOver.uName.lookup [121] = some [97] ∧ exOver.sRoles.lookup [109] = none ∧
+    exOver.sRoles.lookup [110] = some [[97]] ∧ exOver.thg.lookup [112] = some [] ∧ exOver.uCode.lookup [122] = some [97] ∧
+    exOver.p.bwd.lookup [112] = some [[97]] := by
   decide
 
-/-- … and after the delete nothing mentions the id -/
 theorem child_create_over_parent_no_trace :
-    exTrace.a.lookup [97] = none ∧ (Render exTrace).filter (fun l => decide (Mentions [97] l)) = [] := by
+    (step exOver (.deleteA [97])).2 = .ok ∧
+    (Render (step exOver (.deleteA [97])).1).filter (fun l => decide (Mentions [97] l)) = [] := by
   decide
 
-/-! ### non-vacuity -/
+/-- a ref-counted link with count 3 and a link owned by the child store: both are gone after the delete -/
+def exRc : State := run [[.createB [112] none], [.createA1 [97] vA [122] [[112]]],
+  [.rcInc [97] [112], .rcInc [97] [112], .rcInc [97] [112]]]
 
-def exState : State := run [[exOwner], [exPlain], [.createA1 [98] ⟨[121], some [120], [[109]], some [112], [[112]]⟩ [122]]]
+theorem rc_and_child_links_no_trace :
+    cnt exRc.rc.bwd [112] [97] = some 3 ∧ exRc.p.bwd.lookup [112] = some [[97]] ∧
+    (Render exRc).any (fun l => decide (Mentions [97] l)) = true ∧
+    (Render (step exRc (.deleteA [97])).1).filter (fun l => decide (Mentions [97] l)) = [] := by
+  decide
 
-example : (step exState (.deleteA [98])).2 = .ok := by decide
-/-- `NoClash` holds in the harness universe (ids a, b / p; values x, y, z, m): the hypotheses of
-    `delete_no_trace` are satisfiable -/
-example : NoClash [98] (step exState (.deleteA [98])).1 := noClash_of_check (by decide)
-example : (step exState (.deleteA [98])).1.b.lookup [98] = none := by decide
-example : ((Render (step exState (.deleteA [98])).1).any fun l => decide (Mentions [98] l)) = false := by decide
-example : ((Render exState).any fun l => decide (Mentions [98] l)) = true := by decide
+/-- a cascading delete: deleting owner q removes its dependant b, and neither id is mentioned afterwards -/
+def exCascade : State := run [[.createB [112] none, .createB [113] none],
+  [.createA [98] ⟨[121], none, [], some [112], some [113], [[113]]⟩], [.rcSet [98] [113] 2]]
+
+theorem cascade_witness :
+    (step exCascade (.deleteB [113])).2 = .ok ∧ (step exCascade (.deleteB [113])).1.a.lookup [98] = none ∧
+    (Render (step exCascade (.deleteB [113])).1).filter (fun l => decide (Mentions [98] l) || decide (Mentions [113] l)) = [] := by
+  decide
+
+/-- `NoClash` holds in the harness universe: the hypotheses of the no-trace theorems are satisfiable -/
+example : NoClash [97] (step exRc (.deleteA [97])).1 := noClash_of_check (by decide)
+example : (step exRc (.deleteA [97])).1.b.lookup [97] = none := by decide
+example : NoClash [98] (step exCascade (.deleteB [113])).1 := noClash_of_check (by decide)
 
 end StorageModel.Properties.C06
 
 #print axioms StorageModel.Properties.C06.inv_reachable
-#print axioms StorageModel.Properties.C06.delete_no_trace
-#print axioms StorageModel.Properties.C06.recreate_fresh
-#print axioms StorageModel.Properties.C06.child_create_over_parent_no_trace
+#print axioms StorageModel.Properties.C06.absent_no_trace
+#print axioms StorageModel.Properties.C06.cascade_no_trace
+#print axioms StorageModel.Properties.C06.recreate_as_if_never_existed
